@@ -346,4 +346,82 @@ func runC05(c *Ctx) {
 		}
 	}
 
+	c.Rule("C05-D9", "one namespace's disconnect does not take the shared connection from the others: Manager.destroy closes the connection only when no socket is active, and a client socket is active from the moment it subscribes to the manager "+
+		"(registerSubEvents sets active=true under activeMu; only the deregistration sets it false) — a socket whose CONNECT is still pending must already count, or Disconnect() on a sibling namespace closes the connection under it; "+
+		"and the frames of one namespace's packet enter the connection's queue in one call (shared with C02-D1), so another namespace's packet cannot land between a binary event and its attachments", 6)
+	{
+		af := p.Field("sio", "clientSocket", "active")
+		nTrue, nFalse := 0, 0
+		for _, f := range p.SrcFuncs() {
+			for _, st := range findInstrs(f, fieldStorePred(af)) {
+				if rawTop(f) != f && siteOf(f) == nil {
+					// closures are attributed to their function below (findInstrs on the top-level function does not descend into them)
+				}
+				top := FuncName(EnclosingTop(f))
+				v := Term(st.(*ssa.Store).Val)
+				switch v {
+				case "true":
+					nTrue++
+					li := LocksInherit(f)
+					c.Ob("C05-D9", "sio.clientSocket.active=true@"+FuncName(f), st.Pos(), top == "(*sio.clientSocket).registerSubEvents" && li.HoldsW(st, "s.activeMu"), "clientSocket.active is set true in "+FuncName(f)+"; it must be set (under activeMu) when the socket subscribes to the manager, not later: a socket waiting for its CONNECT reply must already keep the connection open")
+				case "false":
+					nFalse++
+					c.Ob("C05-D9", "sio.clientSocket.active=false@"+FuncName(f), st.Pos(), strings.Contains(top, "clientSocket).deregisterSubEvents") || strings.Contains(top, "clientSocket).destroy") || strings.Contains(top, "clientSocket).registerSubEvents"), "clientSocket.active is cleared in "+FuncName(f))
+				default:
+					c.Ob("C05-D9", "sio.clientSocket.active=?@"+FuncName(f), st.Pos(), false, "clientSocket.active is set to "+v+": it must be true from subscription to deregistration")
+				}
+			}
+		}
+		if nTrue == 0 {
+			c.Ob("C05-D9", "sio.clientSocket.active=true", p.Fn("sio", "clientSocket.registerSubEvents").Pos(), false, "no place sets clientSocket.active = true")
+		}
+		// the subscription happens after active=true in the same activeMu region
+		rs := p.Fn("sio", "clientSocket.registerSubEvents")
+		sets := findInstrs(rs, func(in ssa.Instruction) bool {
+			st, ok := in.(*ssa.Store)
+			return ok && fieldStorePred(af)(in) && Term(st.Val) == "true"
+		})
+		subs := findInstrs(rs, callPred(`\(\*sio\.handlerStore\[.*\]\)\.onSubEvent.*`))
+		if len(sets) == 1 && len(subs) > 0 {
+			okOrder := true
+			for _, sb := range subs {
+				if !Dominates(sets[0], sb) {
+					okOrder = false
+				}
+			}
+			c.Ob("C05-D9", "sio.clientSocket.registerSubEvents/active-before-subscribe", sets[0].Pos(), okOrder, "the socket subscribes to the manager's events before it is marked active")
+		}
+		// destroy: closes only when no socket is active
+		ds := p.Fn("sio", "Manager.destroy")
+		cl := findInstrs(ds, callPred(`\(\*sio\.Manager\)\.Close`))
+		if len(cl) != 1 {
+			c.Ob("C05-D9", "sio.Manager.destroy/closes-when-idle", ds.Pos(), false, fmt.Sprintf("expected one Close call in Manager.destroy, found %d", len(cl)))
+		} else {
+			acts := findInstrs(ds, callPred(`\(\*sio\.clientSocket\)\.Active`))
+			okD := len(acts) >= 1
+			detail := "Manager.destroy does not ask the sockets whether they are active"
+			for _, a := range acts {
+				if r, trail := PrunedCanReach(ds, a, []Assume{{`.*\.Active\(\)`, true}}, func(in ssa.Instruction) bool { return in == cl[0] }, nil); r {
+					okD = false
+					detail = "Manager.destroy closes the connection although a socket answered that it is still active: " + trailString(p, trail)
+				}
+			}
+			c.Ob("C05-D9", "sio.Manager.destroy/closes-when-idle", cl[0].Pos(), okD, detail)
+		}
+	}
+	atomicAppend(c, "C05-D9", "sio", "packetQueue.add")
+	for _, a := range []struct{ fn, callee, lenOf string }{
+		{"serverConn.sendBuffers", `\(\*sio\.serverConn\)\.packet|\(\*sio\.packetQueue\)\.add`, "len(buffers)"},
+		{"clientSocket._sendBuffers", `\(\*sio\.Manager\)\.packet|\(\*sio\.packetQueue\)\.add`, "len(buffers)"},
+	} {
+		fn := p.Fn("sio", a.fn)
+		cs := CallsTo(Calls(fn), a.callee)
+		okOne := len(cs) == 1 && !inLoop(cs[0].Instr.Block()) && !cs[0].IsGo()
+		if okOne {
+			mk, isMake := cs[0].Arg(0).(*ssa.MakeSlice)
+			okOne = isMake && Term(mk.Len) == a.lenOf
+		}
+		c.Ob("C05-D9", "sio."+a.fn+"/one-enqueue-for-all-frames", fn.Pos(), okOne, "the frames of one packet are not handed to the connection's queue in a single call with the slice of all frames: a packet of another namespace can land between them")
+	}
+
 }
